@@ -592,10 +592,15 @@ def run_mux(pipe, events, timescale=None, taps='all', dl_late=False, share_ops=F
     def on_completed():
         rec.end = {'t': 'completed', 'v': NONE, 'o': rec.nxt()}
     with C.quiet_stdout():
+        routers_done = False
         if warmup:
             # A first subscription of the same piped observable receives some events and is
             # disposed with keys still open; nothing of it is recorded.  The execution that
-            # is judged is the second subscription.
+            # is judged is the second subscription.  The dead-letter observables stay
+            # subscribed throughout.
+            if not dl_late:
+                _subscribe_routers(rec, ctx)
+                routers_done = True
             try:
                 d0 = obs.subscribe(on_next=lambda i: None, on_error=lambda e: None)
                 for ev in warmup:
@@ -604,7 +609,7 @@ def run_mux(pipe, events, timescale=None, taps='all', dl_late=False, share_ops=F
             except Exception:
                 pass
             rec.reset()
-        if not dl_late:
+        if not dl_late and not routers_done:
             _subscribe_routers(rec, ctx)
         # Re-entrant delivery (a feedback loop through the source Subject): with
         # feedback='end' the subscriber pushes the next source item from inside its on_next;
